@@ -20,7 +20,8 @@ var rec = vh.NewRecorder("C12", "call-histories",
 		"close||close, poll||close, data||data, mixed), against websockets.Proxy in-process under -race; oracle = state-machine model of the "+
 		"session table giving the allowed status set per call, every call answered (no panic, no call left unanswered for 15 s), backend "+
 		"observes a client close, polls after a backend close deliver the queued messages and then 400; non-trivial = a concurrent group "+
-		"containing a close, or a backend close with queued messages; distinct = SHA-256 of the history")
+		"containing a close, or a backend close with queued messages; distinct = SHA-256 of the history"+
+		" Later additions: messages of odd shapes, backend closes with and without immediate polling, a slow-failing open overlapping a successful one (ids of open sessions must stay unique), sessions whose backend never reads (the close call must still close the backend connection within 10 s).")
 
 func TestMain(m *testing.M) { vh.Main(m, rec) }
 
